@@ -44,6 +44,7 @@ for every other enumerated text a fixed type 0x01 signature is attached so that 
 clauses escape, indep-readback, readback, signatures and signed-octets are evaluated.
 """
 import collections
+import functools
 import hashlib
 import itertools
 import multiprocessing
@@ -149,10 +150,15 @@ def parse_cleartext(s):
     if blk['label'] != 'SIGNATURE':
         raise ValueError('signature armor has label %r' % blk['label'])
     if blk['crc'] is not None:
-        from bounded.armor import crc24
-        if crc24(blk['payload']) != blk['crc']:
+        if _crc24_cached(blk['payload']) != blk['crc']:
             raise ValueError('signature armor CRC mismatch')
     return {'hashes': hashes, 'lines': body, 'sig': blk}
+
+
+@functools.lru_cache(maxsize=64)
+def _crc24_cached(payload):
+    from bounded.armor import crc24
+    return crc24(payload)
 
 
 def write_cleartext(text, hashname, sigpackets):
